@@ -340,6 +340,35 @@ pub fn gen_scenario(g: &mut Xo, bias: Bias) -> VmSc {
     }
 }
 
+/// A VERY long execution (millions of steps, i.e. a sizeable fraction of a second of real evaluation): the same
+/// self-re-creating loop with a short body that neither prints nor grows a stack without bound, so that the run
+/// lasts until the step limit. Anything that makes evaluation depend on elapsed time, or that accumulates over
+/// millions of steps, shows as a difference from the model-only run.
+pub fn gen_very_long(g: &mut Xo, steps: usize) -> VmSc {
+    let mut sc = gen_long(g);
+    // bodies with a net stack effect of zero (so that no stack ever overflows and the loop runs until the step
+    // limit) and without cross-stack instructions (so that the model never allows more than one outcome)
+    let templates: [&[Ins]; 4] = [
+        &[Ins::PushInt(1), Ins::Int(IntOp::Add), Ins::Exec(ExecOp::Noop)],
+        &[Ins::PushBool(true), Ins::Bool(BoolOp::Not), Ins::Pop(Ty::Bool), Ins::Int(IntOp::Inc)],
+        &[Ins::Dup(Ty::Int), Ins::Int(IntOp::Max), Ins::Swap(Ty::Int), Ins::Int(IntOp::Dec)],
+        &[Ins::PushInt(3), Ins::PushInt(4), Ins::Int(IntOp::Multiply), Ins::Pop(Ty::Int), Ins::Bool(BoolOp::Not)],
+    ];
+    let mut body: Vec<Prog> = g.pick(&templates).iter().map(|i| Prog::I(i.clone())).collect();
+    for _ in 0..g.urange(0, 2) {
+        body.push(Prog::I(Ins::Exec(ExecOp::Noop)));
+    }
+    body.push(Prog::I(Ins::Dup(Ty::Exec)));
+    sc.init.program = vec![Prog::I(Ins::Dup(Ty::Exec)), Prog::B(body)];
+    sc.init.caps = Caps { exec: 32, int: 16, float: 16, bool: 16 };
+    sc.init.int = vec![0, 5];
+    sc.init.float.truncate(4);
+    sc.init.bool = vec![false];
+    sc.init.limit = steps;
+    sc.limits = vec![steps];
+    sc
+}
+
 /// A long execution: `[exec.dup, [body.., exec.dup]]` re-creates its own block forever, so the run lasts
 /// until the step limit (1000..=LONG_CAP) or until a stack overflows. Bodies are seeded instruction
 /// sequences; some contain a very long string literal (> 64 KiB of output in one step) or several prints.
